@@ -218,8 +218,62 @@ def check_numpy_sizes(kind, seed=0):
     return f
 
 
+def check_nested_fit(kind, seed=0):
+    """A callback of a running fit trains another state (same number of rows) between two batches: what the outer
+    state's gradient computation receives is still, per epoch, every row once with its own basis row."""
+    from qucumber.callbacks import LambdaCallback
+    rng = np.random.default_rng(seed)
+    torch.manual_seed(seed)
+    outer, inner = C.make_state(kind, 3, 2, 1), C.make_state(kind, 3, 2, 1)
+    rows = [[0, 0, 0], [0, 0, 1], [0, 1, 0], [0, 1, 1], [1, 0, 0], [1, 0, 1], [1, 1, 1]]
+    N = len(rows)
+    data = torch.tensor(rows, dtype=torch.double)
+    other = torch.tensor(rng.integers(0, 2, size=(N, 3)), dtype=torch.double)
+    blist = ["ZZZ", "XZZ", "ZZZ", "ZYZ", "ZZZ", "ZZX", "YXZ"]
+    bases = np.array([list(b) for b in blist]) if kind != "positive" else None
+    kw = {"input_bases": bases} if bases is not None else {}
+    got = []
+    real = outer.compute_batch_gradients
+
+    def spy(k, pos, neg, *b):
+        got.append(([tuple(int(x) for x in r) for r in pos.tolist()], [list(r) for r in b[0]] if b else None))
+        return real(k, pos, neg, *b)
+    outer.compute_batch_gradients = spy
+    busy = [False]
+
+    def nested(s, e, b):
+        if not busy[0]:
+            busy[0] = True
+            try:
+                inner.fit(other, epochs=1, pos_batch_size=3, k=1, lr=0.01, **kw)
+            finally:
+                busy[0] = False
+    outer.fit(data, epochs=2, pos_batch_size=2, k=1, lr=0.01, callbacks=[LambdaCallback(on_batch_end=nested)], **kw)
+    f = []
+    nb = math.ceil(N / 2)
+    if len(got) != 2 * nb:
+        return ["%d batches reached the gradient computation in 2 epochs of %d" % (len(got), nb)]
+    for ep in range(2):
+        part = got[ep * nb:(ep + 1) * nb]
+        seen = sorted(r for rws, _ in part for r in rws)
+        if seen != sorted(tuple(r) for r in rows):
+            f.append("epoch %d: with another fit running between its batches, the batches are not every row exactly once" % (ep + 1))
+        if bases is not None:
+            for rws, bs in part:
+                for r, b in zip(rws, bs):
+                    if b != list(blist[rows.index(list(r))]):
+                        f.append("epoch %d: a row is paired with another row's basis" % (ep + 1))
+                        break
+    return f
+
+
 def native_check(quick=True):
     fails, n = [], 0
+    for kind in ("positive", "complex"):
+        f = check_nested_fit(kind)
+        n += 1
+        if f:
+            fails.append(({"kind": kind, "another state trained by a callback between two batches": True}, f[:2]))
     for kind in ("positive", "complex"):
         f = check_numpy_sizes(kind)
         n += 1
